@@ -284,7 +284,7 @@ pub fn scientific(sci: &(Base,Exponent)) -> Value {
   let c = exp_whole.chars.iter().collect::<String>();
   let d = exp_part.chars.iter().collect::<String>();
   // An integer exponent is read as one decimal literal, so the result is the nearest f64
-  let num = if d.is_empty() {
+  let num = if d.chars().all(|ch| ch == '0') {
     format!("{}.{}e{}{}",a,b,if *sign { "-" } else { "" },c).parse::<f64>().unwrap()
   } else {
     let num_f64: f64 = format!("{}.{}",a,b).parse::<f64>().unwrap();
